@@ -325,7 +325,7 @@ def gen_params(r, panel, elig_rows, focus=None, allow=('size', 'ratio', 'volume'
 # ------------------------------------------------------------------------------ experiments
 
 def gen_experiment(r, g, n_pre=None, n_test=None, n_cool=None, n_ctl=None, n_trt=None,
-                   cost_mode=None, shape=None, extras=None, lift=None):
+                   cost_mode=None, shape=None, extras=None, lift=None, int_dtype=None):
   """A geo experiment frame description (geo x date x group/period/response/cost).
 
   Returns dict: frame (DataFrame, columns date geo group period response cost), plus the
@@ -389,7 +389,13 @@ def gen_experiment(r, g, n_pre=None, n_test=None, n_cool=None, n_ctl=None, n_trt
       gid += 1
   r.shuffle(rows)
   frame = pd.DataFrame(rows, columns=['date', 'geo', 'group', 'period', 'response', 'cost'])
-  return {'frame': frame, 'n_pre': n_pre, 'n_test': n_test, 'n_cool': n_cool, 'n_gap': n_gap,
+  if int_dtype is None:
+    int_dtype = r.random() < 0.2
+  if int_dtype:
+    # whole-number metrics stored as int64 (sales counts, whole-currency spend)
+    frame['response'] = np.round(frame['response'] * 10).astype('int64')
+    frame['cost'] = np.round(frame['cost'] * 10).astype('int64')
+  return {'frame': frame, 'int_dtype': bool(int_dtype), 'n_pre': n_pre, 'n_test': n_test, 'n_cool': n_cool, 'n_gap': n_gap,
           'n_after': n_after, 'n_ctl': n_ctl, 'n_trt': n_trt, 'cost_mode': cost_mode,
           'shape': shape, 'extras': sorted(extras), 'dates': dates, 'periods': periods,
           'lift': lift}
